@@ -2,10 +2,11 @@
 use vstd::prelude::*;
 verus! {
 /*@include shims/rt.rs @*/
+/*@include shims/bytes.rs @*/
 
 pub mod env {
     use vstd::prelude::*;
-    use super::unit::{SystemLockData, FieldSubstate, KeyValueEntrySubstate, LockStatus, SystemService};
+    use super::unit::{SystemLockData, FieldSubstate, FieldSubstateV1, KeyValueEntrySubstate, KeyValueEntrySubstateV1, LockStatus, SystemService, ActorStateRef};
 
     pub type SubstateHandle = u32;
     pub type FieldHandle = u32;
@@ -28,10 +29,46 @@ pub mod env {
         #[verifier::external_body]
         fn clone(&self) -> (r: Self) ensures r == *self { unimplemented!() }
     }
+    #[derive(Clone, Copy)]
+    pub struct PackageAddress(pub u8);
+    pub const RESOURCE_PACKAGE: PackageAddress = PackageAddress(3);
+    pub const FUNGIBLE_VAULT_BLUEPRINT: &'static str = "FungibleVault";
+    pub const MAIN_BASE_PARTITION: PartitionNumber = PartitionNumber(64u8);
+    pub const ACTOR_STATE_SELF: ActorStateHandle = 0u32;
+    pub const ACTOR_STATE_OUTER_OBJECT: ActorStateHandle = 1u32;
     #[verifier::external_body]
-    pub struct BlueprintTypeTarget { x: Vec<u8> }
+    pub struct BlueprintId { x: Vec<u8> }
+    impl BlueprintId {
+        #[verifier::external_body]
+        pub fn new(package_address: &PackageAddress, blueprint_name: &str) -> (r: Self) { unimplemented!() }
+        #[verifier::external_body]
+        pub fn eq(&self, other: &Self) -> (r: bool) { unimplemented!() }
+    }
     #[verifier::external_body]
-    pub struct KVStoreTypeTarget { x: Vec<u8> }
+    pub struct BlueprintInfoRest { x: Vec<u8> }
+    /// radix-engine-interface BlueprintInfo: only `blueprint_id` is looked at
+    pub struct BlueprintInfo { pub blueprint_id: BlueprintId, pub rest: BlueprintInfoRest }
+    pub enum SchemaValidationMeta { ExistingObject { additional_schemas: NodeId }, Blueprint }
+    pub struct BlueprintTypeTarget { pub blueprint_info: BlueprintInfo, pub meta: SchemaValidationMeta }
+    #[verifier::external_body]
+    pub struct KeyValueStoreGenericSubstitutions { x: Vec<u8> }
+    pub struct KVStoreTypeTarget { pub kv_store_type: KeyValueStoreGenericSubstitutions, pub meta: NodeId }
+    pub struct KeyValueStoreInfo { pub generic_substitutions: KeyValueStoreGenericSubstitutions }
+    pub enum TypeInfoSubstate { Object, KeyValueStore(KeyValueStoreInfo), GlobalAddressReservation, GlobalAddressPhantom }
+    pub enum FieldTransience { NotTransient, TransientStatic { default_value: Vec<u8> } }
+    pub enum BlueprintPartitionType { KeyValueCollection, IndexCollection, SortedIndexCollection }
+
+    /// bitflags! LockFlags (radix-engine-interface/src/api/field_api.rs)
+    #[derive(Clone, Copy)]
+    pub struct LockFlags { pub bits: u32 }
+    impl LockFlags {
+        pub const MUTABLE: LockFlags = LockFlags { bits: 1 };
+        pub const UNMODIFIED_BASE: LockFlags = LockFlags { bits: 2 };
+        pub const FORCE_WRITE: LockFlags = LockFlags { bits: 4 };
+        pub open spec fn has(self, o: LockFlags) -> bool { self.bits & o.bits == o.bits }
+        pub fn contains(&self, other: LockFlags) -> (r: bool) ensures r == self.has(other) { self.bits & other.bits == other.bits }
+        pub fn read_only() -> (r: LockFlags) ensures r.bits == 0 { LockFlags { bits: 0 } }
+    }
     pub enum KeyOrValue { Key, Value }
     pub enum BlueprintPayloadIdentifier { Field(u8), KeyValueEntry(u8, KeyOrValue), Other }
 
@@ -133,6 +170,23 @@ pub mod env {
         locked(id, old_v) ==> same_content(id, old_v, new_v)
     }
 
+    /// handle `h` was opened on `id` with lock data `data`
+    pub open spec fn opened(s0: KState, s1: KState, h: SubstateHandle, id: SubstateId, data: SystemLockData) -> bool {
+        &&& !s0.handles.contains_key(h)
+        &&& s1.handles == s0.handles.insert(h, HandleInfo { id, data })
+        &&& s1.heap.contains_key(id)
+        &&& s0.heap.contains_key(id) ==> s1.heap == s0.heap
+        &&& !s0.heap.contains_key(id) ==> s1.heap.remove(id) == s0.heap
+    }
+    pub open spec fn kv_entry(v: Option<ScryptoValue>, st: LockStatus) -> KeyValueEntrySubstate<ScryptoValue> {
+        KeyValueEntrySubstate::V1(KeyValueEntrySubstateV1 { value: v, lock_status: st })
+    }
+    /// ASSUMED (SBOR): an EMPTY key-value entry has the same encoding whatever the value type is
+    /// (`None` is variant 0 without fields) -- the system creates missing entries as `KeyValueEntrySubstate::<()>::default()`.
+    pub broadcast axiom fn ax_empty_entry_any_type(b: Seq<u8>)
+        ensures (#[trigger] dec::<KeyValueEntrySubstate<()>>(b) matches Some(e) && e->V1_0.value is None)
+            ==> dec::<KeyValueEntrySubstate<ScryptoValue>>(b) == Some(kv_entry(None, dec::<KeyValueEntrySubstate<()>>(b)->Some_0->V1_0.lock_status));
+
     /// The kernel as seen by the system layer (radix-engine/src/kernel/kernel_api.rs :: KernelSubstateApi<SystemLockData>).
     /// Any call may fail for its own reasons (costing, limits, substate locks, bad handle); `Err` changes nothing.
     pub trait SystemBasedKernelApi: Sized {
@@ -162,10 +216,41 @@ pub mod env {
                     && final(self).st().heap == old(self).st().heap.insert(old(self).st().handles[lock_handle].id, value),
                 r matches Err(e) ==> e is Environment && final(self).st().heap == old(self).st().heap;
 
+        /// Opening never touches an existing substate; a missing one is created from `default` (or the call fails).
+        fn kernel_open_substate_with_default<F: FnOnce() -> IndexedScryptoValue>(&mut self, node_id: &NodeId, partition_num: PartitionNumber,
+                substate_key: &SubstateKey, flags: LockFlags, default: Option<F>, lock_data: SystemLockData) -> (r: Result<SubstateHandle, RuntimeError>)
+            requires default matches Some(f) ==> f.requires(())
+            ensures
+                r matches Ok(h) ==> opened(old(self).st(), final(self).st(), h, (*node_id, partition_num, *substate_key), lock_data)
+                    && (!old(self).st().heap.contains_key((*node_id, partition_num, *substate_key))
+                        ==> (default is Some && default->Some_0.ensures((), final(self).st().heap[(*node_id, partition_num, *substate_key)]))),
+                r matches Err(e) ==> e is Environment && final(self).st() == old(self).st();
+
+        fn kernel_open_substate(&mut self, node_id: &NodeId, partition_num: PartitionNumber,
+                substate_key: &SubstateKey, flags: LockFlags, lock_data: SystemLockData) -> (r: Result<SubstateHandle, RuntimeError>)
+            ensures
+                r matches Ok(h) ==> opened(old(self).st(), final(self).st(), h, (*node_id, partition_num, *substate_key), lock_data)
+                    && old(self).st().heap.contains_key((*node_id, partition_num, *substate_key)),
+                r matches Err(e) ==> e is Environment && final(self).st() == old(self).st();
+
+        fn kernel_mark_substate_as_transient(&mut self, node_id: NodeId, partition_num: PartitionNumber, key: SubstateKey) -> (r: Result<(), RuntimeError>)
+            ensures final(self).st() == old(self).st(), r matches Err(e) ==> e is Environment;
+
         fn kernel_close_substate(&mut self, lock_handle: SubstateHandle) -> (r: Result<(), RuntimeError>)
             ensures final(self).st().heap == old(self).st().heap,
                     r is Ok ==> final(self).st().handles == old(self).st().handles.remove(lock_handle),
                     r matches Err(e) ==> e is Environment && final(self).st().handles == old(self).st().handles;
+    }
+
+    /// system/type_info.rs: reads the TypeInfo substate of a node (opens, reads, closes). ASSUMED: net effect on the
+    /// ghost state is nil; the MAIN_BASE_PARTITION of a node whose type info says KeyValueStore holds key-value entries.
+    pub struct TypeInfoBlueprint;
+    impl TypeInfoBlueprint {
+        #[verifier::external_body]
+        pub fn get_type<Y: SystemBasedKernelApi>(receiver: &NodeId, api: &mut Y) -> (r: Result<TypeInfoSubstate, RuntimeError>)
+            ensures final(api).st() == old(api).st(),
+                    r is Ok && r->Ok_0 is KeyValueStore ==> forall|k: Vec<u8>| #[trigger] kind((*receiver, MAIN_BASE_PARTITION, SubstateKey::Map(k))) is KeyValue,
+        { unimplemented!() }
     }
 
     // ---- methods of SystemService that are NOT under contract (type checker) -------------------------
@@ -177,6 +262,22 @@ pub mod env {
             ensures final(self).api.st() == old(self).api.st(),
                     *final(final(self).api) == *final(old(self).api),
                     r is Ok ==> dec::<ScryptoValue>(payload@) is Some,
+        { unimplemented!() }
+        /// system.rs, not under contract. ASSUMED: resolves the actor's field partition (kind Field) without touching
+        /// substates; a transient field's declared default value is valid SBOR (the caller unwraps its decoding).
+        #[verifier::external_body]
+        pub fn get_actor_field_info(&mut self, actor_object_type: ActorStateRef, field_index: u8) -> (r: Result<(NodeId, BlueprintInfo, PartitionNumber, FieldTransience), RuntimeError>)
+            ensures final(self).api.st() == old(self).api.st(),
+                    *final(final(self).api) == *final(old(self).api),
+                    r matches Ok(t) ==> kind((t.0, t.2, SubstateKey::Field(field_index))) is Field
+                        && (t.3 matches FieldTransience::TransientStatic { default_value } ==> dec::<ScryptoValue>(default_value@) is Some),
+        { unimplemented!() }
+        /// ASSUMED: resolves the actor's collection partition; for a KeyValueCollection every Map key in it is of kind KeyValue.
+        #[verifier::external_body]
+        pub fn get_actor_collection_partition_info(&mut self, actor_object_type: ActorStateRef, collection_index: u8, expected_type: &BlueprintPartitionType) -> (r: Result<(NodeId, BlueprintInfo, PartitionNumber), RuntimeError>)
+            ensures final(self).api.st() == old(self).api.st(),
+                    *final(final(self).api) == *final(old(self).api),
+                    r is Ok && *expected_type is KeyValueCollection ==> forall|k: Vec<u8>| #[trigger] kind((r->Ok_0.0, r->Ok_0.2, SubstateKey::Map(k))) is KeyValue,
         { unimplemented!() }
         #[verifier::external_body]
         pub fn validate_kv_store_payload(&mut self, target: &KVStoreTypeTarget, payload_identifier: KeyOrValue, payload: &[u8]) -> (r: Result<(), RuntimeError>)
@@ -322,6 +423,7 @@ pub mod unit {
     /*@item radix-engine/src/system/system.rs :: struct SystemService
     @*/
 
+    // ---- ORACLE over the ghost kernel state ---------------------------------------------------
     /// typing invariant of the ghost kernel state
     pub open spec fn inv(s: KState) -> bool {
         &&& forall|h: SubstateHandle| #[trigger] s.handles.contains_key(h) ==> s.heap.contains_key(s.handles[h].id)
@@ -330,34 +432,367 @@ pub mod unit {
         &&& forall|id: SubstateId| #[trigger] s.heap.contains_key(id) ==>
                 (kind(id) is Field ==> field_of(s.heap[id]) is Some) && (kind(id) is KeyValue ==> kv_of(s.heap[id]) is Some)
     }
+    pub open spec fn is_write_data(d: SystemLockData) -> bool { field_write_data(d) || kv_write_data(d) }
     /// every open handle that carries WRITE lock data points at a substate that is not locked
     pub open spec fn write_handles_unlocked(s: KState) -> bool {
-        forall|h: SubstateHandle| #[trigger] s.handles.contains_key(h) && (field_write_data(s.handles[h].data) || kv_write_data(s.handles[h].data))
+        forall|h: SubstateHandle| #[trigger] s.handles.contains_key(h) && is_write_data(s.handles[h].data)
+            ==> !locked(s.handles[h].id, s.heap[s.handles[h].id])
+    }
+    /// ... except the handles on `id`
+    pub open spec fn write_handles_unlocked_except(s: KState, id: SubstateId) -> bool {
+        forall|h: SubstateHandle| #[trigger] s.handles.contains_key(h) && is_write_data(s.handles[h].data) && s.handles[h].id != id
             ==> !locked(s.handles[h].id, s.heap[s.handles[h].id])
     }
     /// C51 over one step of the heap: whatever was locked is still there, locked, with the same content
     pub open spec fn heap_monotone(h0: Map<SubstateId, IndexedScryptoValue>, h1: Map<SubstateId, IndexedScryptoValue>) -> bool {
         forall|id: SubstateId| #[trigger] h0.contains_key(id) ==> h1.contains_key(id) && write_allowed(id, h0[id], h1[id])
     }
+    pub open spec fn unchanged(s0: KState, s1: KState) -> bool { s1.heap == s0.heap && s1.handles == s0.handles }
+    /// the substate under `h` (which is open) is the only thing that was rewritten
+    pub open spec fn only_rewritten(s0: KState, s1: KState, h: SubstateHandle) -> bool {
+        &&& s0.handles.contains_key(h) && s0.heap.contains_key(s0.handles[h].id)
+        &&& s1.handles == s0.handles
+        &&& s1.heap.dom() =~= s0.heap.dom()
+        &&& s1.heap.remove(s0.handles[h].id) =~= s0.heap.remove(s0.handles[h].id)
+    }
+    /// the error a wrong-handle call must produce, unless the kernel failed first
+    pub open spec fn fails_with(r: Result<(), RuntimeError>, e: SystemError) -> bool {
+        r matches Err(x) && (x is Environment || x == RuntimeError::SystemError(e))
+    }
+    pub open spec fn fails_with_b(r: Result<Vec<u8>, RuntimeError>, e: SystemError) -> bool {
+        r matches Err(x) && (x is Environment || x == RuntimeError::SystemError(e))
+    }
+    pub open spec fn unlocked_field(v: ScryptoValue) -> FieldSubstate<ScryptoValue> {
+        FieldSubstate::V1(FieldSubstateV1 { payload: v, lock_status: LockStatus::Unlocked })
+    }
+
+    /*@item radix-engine/src/system/system.rs :: enum ActorStateRef
+    @derive
+    @subst <<enum ActorStateRef>> => <<pub enum ActorStateRef>> why: visibility only -- the private enum must be nameable from the env module, which models get_actor_field_info / get_actor_collection_partition_info
+    @*/
+    pub open spec fn actor_state_ref(value: ActorStateHandle) -> Result<ActorStateRef, RuntimeError> {
+        if value == 0u32 { Ok(ActorStateRef::SELF) } else if value == 1u32 { Ok(ActorStateRef::OuterObject) }
+        else { Err(RuntimeError::SystemError(SystemError::InvalidActorStateHandle)) }
+    }
+    impl vstd::std_specs::convert::TryFromSpecImpl<ActorStateHandle> for ActorStateRef {
+        open spec fn obeys_try_from_spec() -> bool { true }
+        open spec fn try_from_spec(value: ActorStateHandle) -> Result<ActorStateRef, RuntimeError> { actor_state_ref(value) }
+    }
+    impl TryFrom<ActorStateHandle> for ActorStateRef {
+        type Error = RuntimeError;
+        /*@fn radix-engine/src/system/system.rs :: impl TryFrom<ActorStateHandle> for ActorStateRef :: fn try_from
+        @sig
+            ensures ret == actor_state_ref(value)
+        @*/
+    }
+
+    // ---- what the open functions promise ------------------------------------------------------
+    pub open spec fn is_new(s0: KState, s1: KState, h: SubstateHandle) -> bool { s1.handles.contains_key(h) && !s0.handles.contains_key(h) }
+    /// existing substates and existing handles are untouched
+    pub open spec fn extends(s0: KState, s1: KState) -> bool {
+        &&& forall|id: SubstateId| #[trigger] s0.heap.contains_key(id) ==> s1.heap.contains_key(id) && s1.heap[id] == s0.heap[id]
+        &&& forall|h: SubstateHandle| #[trigger] s0.handles.contains_key(h) ==> s1.handles.contains_key(h) && s1.handles[h] == s0.handles[h]
+    }
+    pub open spec fn none_new(s0: KState, s1: KState) -> bool { forall|h: SubstateHandle| !is_new(s0, s1, h) }
+    /// THE OPEN GUARD for a field: the one handle this call opened is on a Field substate with index `field_index`,
+    /// carries Write lock data iff MUTABLE was requested, and if MUTABLE was requested on a LOCKED field the call
+    /// returns exactly FieldLocked(object_handle, field_index); otherwise it hands out the handle (or the kernel failed).
+    pub open spec fn field_guard(s0: KState, s1: KState, h: SubstateHandle, object_handle: ActorStateHandle, field_index: u8,
+                                 flags: LockFlags, ret: Result<SubstateHandle, RuntimeError>) -> bool {
+        let i = s1.handles[h];
+        &&& s1.handles =~= s0.handles.insert(h, i)
+        &&& kind(i.id) is Field && i.id.2 == SubstateKey::Field(field_index)
+        &&& i.data is Field && (field_write_data(i.data) <==> flags.has(LockFlags::MUTABLE))
+        &&& (flags.has(LockFlags::MUTABLE) && locked(i.id, s1.heap[i.id])
+                ==> ret == Err::<SubstateHandle, RuntimeError>(RuntimeError::SystemError(SystemError::FieldLocked(object_handle, field_index)))
+                    || ret == Err::<SubstateHandle, RuntimeError>(RuntimeError::Environment))
+        &&& (!(flags.has(LockFlags::MUTABLE) && locked(i.id, s1.heap[i.id]))
+                ==> ret == Ok::<SubstateHandle, RuntimeError>(h) || ret == Err::<SubstateHandle, RuntimeError>(RuntimeError::Environment))
+        &&& (!flags.has(LockFlags::MUTABLE) ==> ret == Ok::<SubstateHandle, RuntimeError>(h))
+    }
+    pub open spec fn kv_guard(s0: KState, s1: KState, h: SubstateHandle, flags: LockFlags, ret: Result<KeyValueEntryHandle, RuntimeError>) -> bool {
+        let i = s1.handles[h];
+        &&& s1.handles =~= s0.handles.insert(h, i)
+        &&& kind(i.id) is KeyValue
+        &&& i.data is KeyValueEntry && (kv_write_data(i.data) <==> flags.has(LockFlags::MUTABLE))
+        &&& (flags.has(LockFlags::MUTABLE) && locked(i.id, s1.heap[i.id])
+                ==> ret == Err::<SubstateHandle, RuntimeError>(RuntimeError::SystemError(SystemError::KeyValueEntryLocked))
+                    || ret == Err::<SubstateHandle, RuntimeError>(RuntimeError::Environment))
+        &&& (!(flags.has(LockFlags::MUTABLE) && locked(i.id, s1.heap[i.id]))
+                ==> ret == Ok::<SubstateHandle, RuntimeError>(h) || ret == Err::<SubstateHandle, RuntimeError>(RuntimeError::Environment))
+        &&& (!flags.has(LockFlags::MUTABLE) ==> ret == Ok::<SubstateHandle, RuntimeError>(h))
+    }
 
     impl<'a, Y: SystemBasedKernelApi> SystemService<'a, Y> {
+        // ---- the open guards ----------------------------------------------------------------------
+        /*@fn radix-engine/src/system/system.rs :: impl<'a, Y: SystemBasedKernelApi> SystemActorApi<RuntimeError> for SystemService<'a, Y> :: fn actor_open_field
+        @sig
+            requires inv(old(self).api.st()), write_handles_unlocked(old(self).api.st())
+            ensures
+                extends(old(self).api.st(), final(self).api.st()),
+                heap_monotone(old(self).api.st().heap, final(self).api.st().heap),
+                inv(final(self).api.st()),
+                none_new(old(self).api.st(), final(self).api.st()) ==> ret is Err && unchanged(old(self).api.st(), final(self).api.st()),
+                forall|h: SubstateHandle| is_new(old(self).api.st(), final(self).api.st(), h)
+                    ==> field_guard(old(self).api.st(), final(self).api.st(), h, object_handle, field_index, flags, ret),
+                ret matches Ok(h) ==> is_new(old(self).api.st(), final(self).api.st(), h) && write_handles_unlocked(final(self).api.st()),
+                *final(final(self).api) == *final(old(self).api),
+        @after <<let handle = match transient>> #1
+            proof { assert(is_new(old(self).api.st(), self.api.st(), handle)); }
+        @closure 1 := || -> (r: IndexedScryptoValue) ensures field_of(r) == Some(unlocked_field(default_value))
+        @closure 2 := |v: &IndexedScryptoValue| -> (r: LockStatus) requires field_of(*v) is Some ensures r == field_of(*v)->Some_0.st()
+        @*/
+    }
+
+    impl<'a, Y: SystemBasedKernelApi> SystemService<'a, Y> {
+        /*@fn radix-engine/src/system/system.rs :: impl<'a, Y: SystemBasedKernelApi> SystemActorKeyValueEntryApi<RuntimeError> for SystemService<'a, Y> :: fn actor_open_key_value_entry
+        @sig
+            requires inv(old(self).api.st()), write_handles_unlocked(old(self).api.st())
+            ensures
+                extends(old(self).api.st(), final(self).api.st()),
+                heap_monotone(old(self).api.st().heap, final(self).api.st().heap),
+                inv(final(self).api.st()),
+                none_new(old(self).api.st(), final(self).api.st()) ==> ret is Err && unchanged(old(self).api.st(), final(self).api.st()),
+                forall|h: SubstateHandle| is_new(old(self).api.st(), final(self).api.st(), h)
+                    ==> kv_guard(old(self).api.st(), final(self).api.st(), h, flags, ret),
+                ret matches Ok(h) ==> is_new(old(self).api.st(), final(self).api.st(), h) && write_handles_unlocked(final(self).api.st()),
+                *final(final(self).api) == *final(old(self).api),
+        @closure 1 := || -> (r: IndexedScryptoValue) ensures dec::<KeyValueEntrySubstate<()>>(r.bytes()) == Some(KeyValueEntrySubstate::<()>::V1(KeyValueEntrySubstateV1 { value: None, lock_status: LockStatus::Unlocked }))
+        @after <<let handle = self.api.kernel_open_substate_with_default>> #1
+            proof {
+                assert(is_new(old(self).api.st(), self.api.st(), handle));
+                ax_empty_entry_any_type(self.api.st().heap[self.api.st().handles[handle].id].bytes());
+            }
+        @*/
+        /*@fn radix-engine/src/system/system.rs :: impl<'a, Y: SystemBasedKernelApi> SystemKeyValueStoreApi<RuntimeError> for SystemService<'a, Y> :: fn key_value_store_open_entry
+        @sig
+            requires inv(old(self).api.st()), write_handles_unlocked(old(self).api.st())
+            ensures
+                extends(old(self).api.st(), final(self).api.st()),
+                heap_monotone(old(self).api.st().heap, final(self).api.st().heap),
+                inv(final(self).api.st()),
+                none_new(old(self).api.st(), final(self).api.st()) ==> ret is Err && unchanged(old(self).api.st(), final(self).api.st()),
+                forall|h: SubstateHandle| is_new(old(self).api.st(), final(self).api.st(), h)
+                    ==> kv_guard(old(self).api.st(), final(self).api.st(), h, flags, ret),
+                ret matches Ok(h) ==> is_new(old(self).api.st(), final(self).api.st(), h) && write_handles_unlocked(final(self).api.st()),
+                *final(final(self).api) == *final(old(self).api),
+        @closure 1 := || -> (r: IndexedScryptoValue) ensures dec::<KeyValueEntrySubstate<()>>(r.bytes()) == Some(KeyValueEntrySubstate::<()>::V1(KeyValueEntrySubstateV1 { value: None, lock_status: LockStatus::Unlocked }))
+        @closure 2 := |v: &IndexedScryptoValue| -> (r: LockStatus) requires kv_of(*v) is Some ensures r == kv_of(*v)->Some_0.st()
+        @after <<let handle = self.api.kernel_open_substate_with_default>> #1
+            proof {
+                assert(is_new(old(self).api.st(), self.api.st(), handle));
+                ax_empty_entry_any_type(self.api.st().heap[self.api.st().handles[handle].id].bytes());
+            }
+        @*/
+    }
+
+    impl<'a, Y: SystemBasedKernelApi> SystemService<'a, Y> {
+        // ---- remove = open(MUTABLE) + rewrite + close ------------------------------------------------
+        /// "Internal, handle must be checked or from trusted sources" (no lock-data check of its own): the
+        /// precondition says what a checked handle is.
+        /*@fn radix-engine/src/system/system.rs :: impl<'a, Y: SystemBasedKernelApi> SystemService<'a, Y> :: fn key_value_entry_remove_and_close_substate
+        @sig
+            requires inv(old(self).api.st()), write_handles_unlocked(old(self).api.st()),
+                     old(self).api.st().handles.contains_key(handle) ==> kv_write_data(old(self).api.st().handles[handle].data),
+            ensures
+                heap_monotone(old(self).api.st().heap, final(self).api.st().heap),
+                inv(final(self).api.st()), write_handles_unlocked(final(self).api.st()),
+                !old(self).api.st().handles.contains_key(handle) ==> ret is Err,
+                ret matches Ok(bytes) ==> final(self).api.st().handles == old(self).api.st().handles.remove(handle)
+                    && old(self).api.st().heap.contains_key(old(self).api.st().handles[handle].id)
+                    && final(self).api.st().heap.dom() =~= old(self).api.st().heap.dom()
+                    && final(self).api.st().heap.remove(old(self).api.st().handles[handle].id) =~= old(self).api.st().heap.remove(old(self).api.st().handles[handle].id)
+                    && kv_of(final(self).api.st().heap[old(self).api.st().handles[handle].id])
+                        == Some(kv_entry(None, LockStatus::Unlocked))
+                    && dec::<Option<ScryptoValue>>(bytes@) == Some(kv_of(old(self).api.st().heap[old(self).api.st().handles[handle].id])->Some_0.val()),
+                ret is Err ==> final(self).api.st().handles == old(self).api.st().handles,
+                *final(final(self).api) == *final(old(self).api),
+        @closure 1 := |v: &IndexedScryptoValue| -> (r: Vec<u8>) ensures r@ =~= v.bytes()
+        @*/
+        /*@fn radix-engine/src/system/system.rs :: impl<'a, Y: SystemBasedKernelApi> SystemActorKeyValueEntryApi<RuntimeError> for SystemService<'a, Y> :: fn actor_remove_key_value_entry
+        @sig
+            requires inv(old(self).api.st()), write_handles_unlocked(old(self).api.st())
+            ensures
+                heap_monotone(old(self).api.st().heap, final(self).api.st().heap),
+                inv(final(self).api.st()),
+                ret is Ok ==> write_handles_unlocked(final(self).api.st()) && final(self).api.st().handles =~= old(self).api.st().handles,
+                *final(final(self).api) == *final(old(self).api),
+        @entry
+            proof { assert(1u32 & 1u32 == 1u32) by (bit_vector); }
+        @*/
+        /*@fn radix-engine/src/system/system.rs :: impl<'a, Y: SystemBasedKernelApi> SystemKeyValueStoreApi<RuntimeError> for SystemService<'a, Y> :: fn key_value_store_remove_entry
+        @sig
+            requires inv(old(self).api.st()), write_handles_unlocked(old(self).api.st())
+            ensures
+                heap_monotone(old(self).api.st().heap, final(self).api.st().heap),
+                inv(final(self).api.st()),
+                ret is Ok ==> write_handles_unlocked(final(self).api.st()) && final(self).api.st().handles =~= old(self).api.st().handles,
+                *final(final(self).api) == *final(old(self).api),
+        @entry
+            proof { assert(1u32 & 1u32 == 1u32) by (bit_vector); }
+        @*/
+
+        // ---- readers: change nothing ---------------------------------------------------------------
+        /*@fn radix-engine/src/system/system.rs :: impl<'a, Y: SystemBasedKernelApi> SystemFieldApi<RuntimeError> for SystemService<'a, Y> :: fn field_read
+        @sig
+            requires inv(old(self).api.st())
+            ensures
+                unchanged(old(self).api.st(), final(self).api.st()),
+                ret matches Ok(bytes) ==> old(self).api.st().handles.contains_key(handle) && old(self).api.st().handles[handle].data is Field
+                    && dec::<ScryptoValue>(bytes@) == Some(field_of(old(self).api.st().heap[old(self).api.st().handles[handle].id])->Some_0.pl()),
+                *final(final(self).api) == *final(old(self).api),
+        @closure 1 := |v: &IndexedScryptoValue| -> (r: Vec<u8>) requires field_of(*v) is Some ensures dec::<ScryptoValue>(r@) == Some(field_of(*v)->Some_0.pl())
+        @*/
+        /*@fn radix-engine/src/system/system.rs :: impl<'a, Y: SystemBasedKernelApi> SystemKeyValueEntryApi<RuntimeError> for SystemService<'a, Y> :: fn key_value_entry_get
+        @sig
+            requires inv(old(self).api.st())
+            ensures
+                unchanged(old(self).api.st(), final(self).api.st()),
+                ret matches Ok(bytes) ==> old(self).api.st().handles.contains_key(handle) && old(self).api.st().handles[handle].data is KeyValueEntry
+                    && dec::<Option<ScryptoValue>>(bytes@) == Some(kv_of(old(self).api.st().heap[old(self).api.st().handles[handle].id])->Some_0.val()),
+                *final(final(self).api) == *final(old(self).api),
+        @closure 1 := |v: &IndexedScryptoValue| -> (r: Vec<u8>) requires kv_of(*v) is Some ensures dec::<Option<ScryptoValue>>(r@) == Some(kv_of(*v)->Some_0.val())
+        @*/
+    }
+
+    impl<'a, Y: SystemBasedKernelApi> SystemService<'a, Y> {
+        // ---- forwarding impl of KernelSubstateApi<SystemLockData> for SystemService: same sensitive contract
+        /*@fn radix-engine/src/system/system.rs :: impl<'a, Y: SystemBasedKernelApi> KernelSubstateApi<SystemLockData> for SystemService<'a, Y> :: fn kernel_write_substate
+        @sig
+            requires
+                old(self).api.st().handles.contains_key(lock_handle) && old(self).api.st().heap.contains_key(old(self).api.st().handles[lock_handle].id)
+                    ==> write_allowed(old(self).api.st().handles[lock_handle].id, old(self).api.st().heap[old(self).api.st().handles[lock_handle].id], value),
+            ensures
+                final(self).api.st().handles == old(self).api.st().handles,
+                ret is Ok ==> old(self).api.st().handles.contains_key(lock_handle)
+                    && old(self).api.st().heap.contains_key(old(self).api.st().handles[lock_handle].id)
+                    && final(self).api.st().heap == old(self).api.st().heap.insert(old(self).api.st().handles[lock_handle].id, value),
+                ret matches Err(e) ==> e is Environment && final(self).api.st().heap == old(self).api.st().heap,
+                *final(final(self).api) == *final(old(self).api),
+        @*/
+        /*@fn radix-engine/src/system/system.rs :: impl<'a, Y: SystemBasedKernelApi> KernelSubstateApi<SystemLockData> for SystemService<'a, Y> :: fn kernel_close_substate
+        @sig
+            ensures final(self).api.st().heap == old(self).api.st().heap,
+                    ret is Ok ==> final(self).api.st().handles == old(self).api.st().handles.remove(lock_handle),
+                    ret matches Err(e) ==> e is Environment && final(self).api.st().handles == old(self).api.st().handles,
+                    *final(final(self).api) == *final(old(self).api),
+        @*/
+
+        // ---- SystemFieldApi ---------------------------------------------------------------------
         /*@fn radix-engine/src/system/system.rs :: impl<'a, Y: SystemBasedKernelApi> SystemFieldApi<RuntimeError> for SystemService<'a, Y> :: fn field_write
         @sig
             requires inv(old(self).api.st()), write_handles_unlocked(old(self).api.st())
             ensures
-                inv(final(self).api.st()), write_handles_unlocked(final(self).api.st()),
+                // C51: nothing that was locked has changed
                 heap_monotone(old(self).api.st().heap, final(self).api.st().heap),
+                inv(final(self).api.st()), write_handles_unlocked(final(self).api.st()),
+                // a handle that does not carry Field-Write lock data cannot write
+                !old(self).api.st().handles.contains_key(handle) ==> ret is Err,
+                old(self).api.st().handles.contains_key(handle) && !field_write_data(old(self).api.st().handles[handle].data)
+                    ==> fails_with(ret, SystemError::NotAFieldWriteHandle),
+                ret is Err ==> unchanged(old(self).api.st(), final(self).api.st()),
+                ret is Ok ==> only_rewritten(old(self).api.st(), final(self).api.st(), handle)
+                    && field_write_data(old(self).api.st().handles[handle].data)
+                    && dec::<ScryptoValue>(buffer@) is Some
+                    && field_of(final(self).api.st().heap[old(self).api.st().handles[handle].id]) == Some(unlocked_field(dec::<ScryptoValue>(buffer@)->Some_0)),
                 *final(final(self).api) == *final(old(self).api),
         @*/
         /*@fn radix-engine/src/system/system.rs :: impl<'a, Y: SystemBasedKernelApi> SystemFieldApi<RuntimeError> for SystemService<'a, Y> :: fn field_lock
         @sig
             requires inv(old(self).api.st())
             ensures
-                inv(final(self).api.st()),
                 heap_monotone(old(self).api.st().heap, final(self).api.st().heap),
+                inv(final(self).api.st()),
+                !old(self).api.st().handles.contains_key(handle) ==> ret is Err,
+                old(self).api.st().handles.contains_key(handle) && !field_write_data(old(self).api.st().handles[handle].data)
+                    ==> fails_with(ret, SystemError::NotAFieldWriteHandle),
+                ret is Err ==> unchanged(old(self).api.st(), final(self).api.st()),
+                // Ok: the field is now Locked, payload untouched, nothing else rewritten
+                ret is Ok ==> only_rewritten(old(self).api.st(), final(self).api.st(), handle)
+                    && field_write_data(old(self).api.st().handles[handle].data)
+                    && locked(old(self).api.st().handles[handle].id, final(self).api.st().heap[old(self).api.st().handles[handle].id])
+                    && field_of(final(self).api.st().heap[old(self).api.st().handles[handle].id])->Some_0.pl()
+                        == field_of(old(self).api.st().heap[old(self).api.st().handles[handle].id])->Some_0.pl(),
+                // the handle stays open with Write lock data although its field is now locked (see the finding in props.frag.json)
+                ret is Ok && write_handles_unlocked(old(self).api.st())
+                    ==> write_handles_unlocked_except(final(self).api.st(), old(self).api.st().handles[handle].id),
+                *final(final(self).api) == *final(old(self).api),
+        @*/
+        /*@fn radix-engine/src/system/system.rs :: impl<'a, Y: SystemBasedKernelApi> SystemFieldApi<RuntimeError> for SystemService<'a, Y> :: fn field_close
+        @sig
+            ensures
+                final(self).api.st().heap == old(self).api.st().heap,
+                ret is Ok ==> final(self).api.st().handles == old(self).api.st().handles.remove(handle),
+                ret is Err ==> final(self).api.st().handles == old(self).api.st().handles,
+                *final(final(self).api) == *final(old(self).api),
+        @*/
+
+        // ---- SystemKeyValueEntryApi ------------------------------------------------------------
+        /*@fn radix-engine/src/system/system.rs :: impl<'a, Y: SystemBasedKernelApi> SystemKeyValueEntryApi<RuntimeError> for SystemService<'a, Y> :: fn key_value_entry_lock
+        @sig
+            requires inv(old(self).api.st())
+            ensures
+                heap_monotone(old(self).api.st().heap, final(self).api.st().heap),
+                inv(final(self).api.st()),
+                !old(self).api.st().handles.contains_key(handle) ==> ret is Err,
+                old(self).api.st().handles.contains_key(handle) && !kv_write_data(old(self).api.st().handles[handle].data)
+                    ==> fails_with(ret, SystemError::NotAKeyValueEntryWriteHandle),
+                ret is Err ==> unchanged(old(self).api.st(), final(self).api.st()),
+                ret is Ok ==> only_rewritten(old(self).api.st(), final(self).api.st(), handle)
+                    && kv_write_data(old(self).api.st().handles[handle].data)
+                    && locked(old(self).api.st().handles[handle].id, final(self).api.st().heap[old(self).api.st().handles[handle].id])
+                    && kv_of(final(self).api.st().heap[old(self).api.st().handles[handle].id])->Some_0.val()
+                        == kv_of(old(self).api.st().heap[old(self).api.st().handles[handle].id])->Some_0.val(),
+                ret is Ok && write_handles_unlocked(old(self).api.st())
+                    ==> write_handles_unlocked_except(final(self).api.st(), old(self).api.st().handles[handle].id),
+                *final(final(self).api) == *final(old(self).api),
+        @*/
+        /*@fn radix-engine/src/system/system.rs :: impl<'a, Y: SystemBasedKernelApi> SystemKeyValueEntryApi<RuntimeError> for SystemService<'a, Y> :: fn key_value_entry_remove
+        @sig
+            requires inv(old(self).api.st()), write_handles_unlocked(old(self).api.st())
+            ensures
+                heap_monotone(old(self).api.st().heap, final(self).api.st().heap),
+                inv(final(self).api.st()), write_handles_unlocked(final(self).api.st()),
+                !old(self).api.st().handles.contains_key(handle) ==> ret is Err,
+                old(self).api.st().handles.contains_key(handle) && !kv_write_data(old(self).api.st().handles[handle].data)
+                    ==> fails_with_b(ret, SystemError::NotAKeyValueEntryWriteHandle),
+                ret is Err ==> unchanged(old(self).api.st(), final(self).api.st()),
+                // Ok: the value is gone and returned; the lock status is what it was (Unlocked)
+                ret matches Ok(bytes) ==> only_rewritten(old(self).api.st(), final(self).api.st(), handle)
+                    && kv_write_data(old(self).api.st().handles[handle].data)
+                    && kv_of(final(self).api.st().heap[old(self).api.st().handles[handle].id])
+                        == Some(kv_entry(None, kv_of(old(self).api.st().heap[old(self).api.st().handles[handle].id])->Some_0.st()))
+                    && dec::<Option<ScryptoValue>>(bytes@) == Some(kv_of(old(self).api.st().heap[old(self).api.st().handles[handle].id])->Some_0.val()),
+                *final(final(self).api) == *final(old(self).api),
+        @closure 1 := |v: &IndexedScryptoValue| -> (r: Vec<u8>) ensures r@ =~= v.bytes()
+        @*/
+        /*@fn radix-engine/src/system/system.rs :: impl<'a, Y: SystemBasedKernelApi> SystemKeyValueEntryApi<RuntimeError> for SystemService<'a, Y> :: fn key_value_entry_set
+        @sig
+            requires inv(old(self).api.st()), write_handles_unlocked(old(self).api.st())
+            ensures
+                heap_monotone(old(self).api.st().heap, final(self).api.st().heap),
+                inv(final(self).api.st()), write_handles_unlocked(final(self).api.st()),
+                !old(self).api.st().handles.contains_key(handle) ==> ret is Err,
+                old(self).api.st().handles.contains_key(handle) && !kv_write_data(old(self).api.st().handles[handle].data)
+                    ==> fails_with(ret, SystemError::NotAKeyValueEntryWriteHandle),
+                ret is Err ==> unchanged(old(self).api.st(), final(self).api.st()),
+                ret is Ok ==> only_rewritten(old(self).api.st(), final(self).api.st(), handle)
+                    && kv_write_data(old(self).api.st().handles[handle].data)
+                    && dec::<ScryptoValue>(buffer@) is Some
+                    && kv_of(final(self).api.st().heap[old(self).api.st().handles[handle].id])
+                        == Some(kv_entry(Some(dec::<ScryptoValue>(buffer@)->Some_0), LockStatus::Unlocked)),
+                *final(final(self).api) == *final(old(self).api),
+        @*/
+        /*@fn radix-engine/src/system/system.rs :: impl<'a, Y: SystemBasedKernelApi> SystemKeyValueEntryApi<RuntimeError> for SystemService<'a, Y> :: fn key_value_entry_close
+        @sig
+            ensures
+                final(self).api.st().heap == old(self).api.st().heap,
+                ret is Ok ==> final(self).api.st().handles == old(self).api.st().handles.remove(handle),
+                ret is Err ==> final(self).api.st().handles == old(self).api.st().handles,
                 *final(final(self).api) == *final(old(self).api),
         @*/
     }
+
     impl<V> Default for KeyValueEntrySubstate<V> {
         /*@fn radix-engine/src/system/system_substates.rs :: impl<V> Default for KeyValueEntrySubstate<V> :: fn default
         @sig
